@@ -40,6 +40,14 @@ fn main() {
             std::process::exit(2);
         }
     };
+    // global watchdog: a run that exceeds it is reported as an infrastructure problem (exit 2, no verdict), never as a violation
+    let limit: u64 = std::env::var("VERIF_WATCHDOG_SECS").ok().and_then(|s| s.parse().ok()).unwrap_or(if tier == Tier::Quick { 1500 } else { 6 * 3600 });
+    let pname = prop.clone();
+    std::thread::spawn(move || {
+        std::thread::sleep(std::time::Duration::from_secs(limit));
+        eprintln!("INFRA: {} exceeded the {} s watchdog (VERIF_WATCHDOG_SECS); no verdict", pname, limit);
+        std::process::exit(2);
+    });
     let ctx = Ctx { property: prop, tier, seed, threads, root, known, strict: false };
     std::process::exit(run_property(&def, &ctx));
 }
